@@ -188,3 +188,12 @@ def run(ctx):
         if rule == "R18.2" and re.search(r"/P(3[5-9]|40)[a-c]?$", k):
             ctx.add("R10.6", "C10/alias-kind/" + k.split("/", 2)[-1], ok, detail, site)
 FLOORS["R10.6"] = 40
+
+# ---- R10.7 (shared with C09 R09.5): the serde form of every PASERK / token type is its text form — the version/kind header is
+# the only thing that ties the phantom type parameters to the data, so no header-less binary representation may exist
+_run_c10b = run
+def run(ctx):
+    _run_c10b(ctx)
+    import shared
+    shared.share(ctx, "c09", lambda r, k: r == "R09.5", "R10.7", "C10/serde-is-text/")
+FLOORS["R10.7"] = 6
